@@ -194,6 +194,64 @@ theorem C06_warn_tree (rq : Request) (stores : List Store) (hab : rq.abort = fal
   ⟨C06_warn_ok treeMerge rq stores hab hlim,
    C06_warn_reported treeMerge (mergeMem_of_spec losertree_refines) rq stores hab hlim st hst⟩
 
+/-! ### which errors end a stream: the error-kind dimension
+
+  A failing `Recv` returns an error value; the receivers end the stream cleanly iff that value *is*
+  io.EOF (`isEnd`, fact `recvEndOfStreamTests`).  Every other error — plain, gRPC status, context
+  deadline, io.ErrUnexpectedEOF, an error that wraps io.EOF or claims `Is(io.EOF)` — is a failure and
+  is reported / aborts.  `Store.seen` applies the test; the driver runs `proxySeriesSeen` /
+  `selectFnSeen`. -/
+
+/-- the store's scripted Recv failure is not io.EOF itself -/
+def NotEnd (st : Store) : Prop := ∀ k, st.failure = .recvErr k → isEnd st.recvError = false
+
+theorem seen_of_notEnd (st : Store) (h : NotEnd st) : st.seen = st := by
+  unfold Store.seen Store.seenWith
+  split
+  · next k hf => simp [h k hf]
+  · rfl
+
+/-- in particular: an error that only has io.EOF in its chain (`%w`, custom `Is`) is not the end -/
+theorem notEnd_of_not_identical (st : Store) (h : st.recvError.isEOF = false) : NotEnd st := fun _ _ => h
+
+/-- **C06 over all error kinds.**  Whatever error value the failing call returns, as long as a
+    failing Recv does not return io.EOF itself: abort ⇒ the request fails, warn ⇒ it succeeds and
+    the store's warning is in the answer. -/
+theorem C06_errkind (rq : Request) (stores : List Store) (hlim : rq.limit = 0) (st : Store) (hst : st ∈ stores)
+    (hne : NotEnd st) :
+    (rq.abort = true → (st.openErr = true ∨ (FailsInStream st ∧ failureMsg st ≠ [])) →
+      (proxySeriesSeen rq stores).2 ≠ .ok) ∧
+    (rq.abort = false →
+      (proxySeriesSeen rq stores).2 = .ok ∧
+      (st.openErr = true → .warning st.openMsg ∈ (proxySeriesSeen rq stores).1) ∧
+      (st.openErr = false → FailsInStream st → .warning (failureMsg st) ∈ (proxySeriesSeen rq stores).1)) := by
+  have hmem : st ∈ stores.map Store.seen := List.mem_map.2 ⟨st, hst, seen_of_notEnd st hne⟩
+  exact ⟨fun hab hf => C06_abort_tree rq _ hab hlim st hmem hf, fun hab => C06_warn_tree rq _ hab hlim st hmem⟩
+
+/-- Why the end test must be identity: with `errors.Is(err, io.EOF)` as the test
+    (`seenWith (·.chainEOF)`), a store whose second Recv fails with an error wrapping io.EOF is taken
+    for complete — an abort request succeeds on truncated data. -/
+theorem C06_errorsIs_false :
+    ¬ (∀ (rq : Request) (stores : List Store) (st : Store), rq.abort = true → rq.limit = 0 → st ∈ stores →
+        FailsInStream st → failureMsg st ≠ [] → st.recvError.isEOF = false →
+        (proxySeries rq (stores.map (Store.seenWith (·.chainEOF)))).2 ≠ .ok) := by
+  intro h
+  have := h { fixedDedup := true, lazy := true, batchSize := 0, limit := 0, abort := true, dedup := true, sharded := false, without := [] }
+    [{ supportsSharding := true, supportsWithout := true, openErr := false, failure := .recvErr 1,
+       frames := [(.series ⟨[([98], [1])], []⟩, true), (.series ⟨[([98], [2])], []⟩, true)],
+       recvMsg := [114], timeoutMsg := [116], openMsg := [111], recvError := { isEOF := false, chainEOF := true } }]
+    { supportsSharding := true, supportsWithout := true, openErr := false, failure := .recvErr 1,
+       frames := [(.series ⟨[([98], [1])], []⟩, true), (.series ⟨[([98], [2])], []⟩, true)],
+       recvMsg := [114], timeoutMsg := [116], openMsg := [111], recvError := { isEOF := false, chainEOF := true } }
+    rfl rfl (by simp) (Or.inl ⟨1, rfl, by decide⟩) (by decide) rfl
+  revert this
+  decide
+
+/-- the end test in the sources: both receivers compare the error with io.EOF by identity, and
+    nowhere else is a Recv error tested against io.EOF -/
+theorem C06_fact_end_test :
+    Thanos.Facts.recvEndOfStreamTests = ["lazy:err == io.EOF", "eager:err == io.EOF"] := rfl
+
 /-! ### one level up: the querier (`querier.selectFn`) — what the user of the Query API sees -/
 
 theorem mem_collect_warning (fs : List Frame) (m : Bytes) (hm : m ≠ []) (h : Frame.warning m ∈ fs) :
@@ -246,6 +304,17 @@ theorem C06_querier_tree (rq : Request) (stores : List Store) (hlim : rq.limit =
       (selectFn rq stores).failed = true) :=
   ⟨fun hab => C06_querier_warn treeMerge (mergeMem_of_spec losertree_refines) rq stores hab hlim st hst,
    fun hab hf => C06_querier_abort treeMerge (mergeMem_of_spec losertree_refines) rq stores hab hlim st hst hf false⟩
+
+/-- the same at the querier -/
+theorem C06_errkind_querier (rq : Request) (stores : List Store) (hlim : rq.limit = 0) (st : Store) (hst : st ∈ stores)
+    (hne : NotEnd st) :
+    (rq.abort = false →
+      (selectFnSeen rq stores).failed = false ∧
+      (st.openErr = true → st.openMsg ≠ [] → st.openMsg ∈ (selectFnSeen rq stores).warnings) ∧
+      (st.openErr = false → FailsInStream st → failureMsg st ≠ [] → failureMsg st ∈ (selectFnSeen rq stores).warnings)) ∧
+    (rq.abort = true → (st.openErr = true ∨ (FailsInStream st ∧ failureMsg st ≠ [])) →
+      (selectFnSeen rq stores).failed = true) :=
+  C06_querier_tree rq _ hlim st (List.mem_map.2 ⟨st, hst, seen_of_notEnd st hne⟩)
 
 /-- Why "the warnings are read on every successful path" is an obligation: a variant of `selectFn`
     that returns an empty series set before reading them loses the warning of a store that fails
@@ -313,5 +382,14 @@ example : (selectFn rqW [{ okStore [(ser 1, true)] with failure := .recvErr 0 },
     = [[111], [114]] := by decide
 example : (selectFn rqW [{ okStore [(ser 1, true)] with failure := .recvErr 0 }, { okStore [] with openErr := true }]).series = [] := by decide
 example : (selectFn { rqW with abort := true } [{ okStore [(ser 1, true)] with failure := .hang 0 }]).failed = true := by decide
+
+-- error kinds: a Recv that returns io.EOF itself after one frame is a (short) healthy stream; an error
+-- that merely wraps io.EOF is a failure like any other
+example : (proxySeriesSeen rqW [{ okStore [(ser 1, true), (ser 2, true)] with failure := .recvErr 1, recvError := { isEOF := true, chainEOF := true } }])
+    = proxySeries rqW [okStore [(ser 1, true)]] := by decide
+example : (selectFnSeen rqW [{ okStore [(ser 1, true), (ser 2, true)] with failure := .recvErr 1, recvError := { isEOF := false, chainEOF := true } }]).warnings
+    = [[114]] := by decide
+example : (proxySeriesSeen { rqW with abort := true } [{ okStore [(ser 1, true), (ser 2, true)] with failure := .recvErr 1, recvError := { isEOF := false, chainEOF := true } }]).2
+    = .aborted := by decide
 
 end Thanos.Merge
